@@ -72,7 +72,48 @@ pub fn pal_i64(r: &mut Rng) -> i64 {
 
 pub const BYTES_LENS: [usize; 9] = [0, 1, 2, 23, 24, 255, 256, 65535, 65536];
 
+/// Byte strings that *happen to be* something: a complete encoded CBOR item of a shape the crate
+/// knows (claims set, key, key set, header map, COSE_Signature, COSE_Sign1, a tagged message, tag 24
+/// around a byte string), an ASN.1 DER ECDSA signature, a SEC1 point, a long run of one byte that
+/// is a CBOR array / map / tag / break head.  A byte string is opaque whatever it contains.
+pub fn structured_bytes(r: &mut Rng) -> Vec<u8> {
+    match r.below(12) {
+        0 => rcbor::det(&enc_claims(&gen_claims(r))),
+        1 => rcbor::det(&enc_key(&gen_key_plain(r, vec![], 2))),
+        2 => rcbor::det(&Item::Array(vec![enc_key(&gen_key_plain(r, vec![], 1))])),
+        3 => vec![0xa1, 0x01, 0x26],
+        4 => vec![0x83, 0x40, 0xa0, 0x41, 0x01],
+        5 => vec![0x84, 0x40, 0xa0, 0x41, 0x01, 0x41, 0x02],
+        6 => vec![0xd2, 0x84, 0x40, 0xa0, 0x41, 0x01, 0x41, 0x02],
+        7 => vec![0xd8, 0x18, 0x43, 0xa1, 0x01, 0x26],
+        8 => {
+            // DER SEQUENCE { INTEGER r, INTEGER s } with 32-byte integers
+            let mut v = vec![0x30, 0x44, 0x02, 0x20];
+            v.extend(r.bytes(32).iter().map(|b| b & 0x7f | 1));
+            v.extend_from_slice(&[0x02, 0x20]);
+            v.extend(r.bytes(32).iter().map(|b| b & 0x7f | 1));
+            v
+        }
+        9 => {
+            // SEC1 uncompressed / compressed point
+            let n = *r.pick(&[32usize, 48, 66]);
+            let mut v = vec![*r.pick(&[0x04u8, 0x02, 0x03])];
+            let m = if v[0] == 4 { 2 * n } else { n };
+            v.extend(r.bytes(m));
+            v
+        }
+        _ => {
+            let b = *r.pick(&[0x81u8, 0x9f, 0xa1, 0xbf, 0xc6, 0xd8, 0xff, 0x5f, 0x7f, 0x00, 0x40, 0x80]);
+            let n = *r.pick(&[24usize, 255, 256, 257, 300, 1000, 5000]);
+            vec![b; n]
+        }
+    }
+}
+
 pub fn pal_bytes(r: &mut Rng) -> Vec<u8> {
+    if r.chance(1, 24) {
+        return structured_bytes(r);
+    }
     let n = match r.below(10) {
         0 => 0,
         1..=5 => 1 + r.below(8),
@@ -100,6 +141,12 @@ pub fn pal_bytes_nonempty(r: &mut Rng) -> Vec<u8> {
 
 /// short byte strings only (keeps nested structures small)
 pub fn small_bytes(r: &mut Rng) -> Vec<u8> {
+    if r.chance(1, 48) {
+        let b = structured_bytes(r);
+        if b.len() <= 300 {
+            return b;
+        }
+    }
     let n = r.below(6);
     r.bytes(n)
 }
@@ -140,7 +187,43 @@ pub const LOOKALIKE_TEXTS: [&str; 64] = [
     "ES256", "EdDSA", "OKP", "EC2", "sign", "verify",
 ];
 
+/// Texts that collide under popular non-cryptographic string hashes (FNV-1 / FNV-1a 32, the Java /
+/// 31-multiplier hash, djb2, CRC-32): distinct labels stay distinct whatever they hash to.  Listed
+/// in pairs; generators that want a collision inside one map take both members of a pair.
+pub const COLLIDING_TEXTS: [(&str, &str); 12] = [
+    ("costarring", "liquid"),
+    ("declinate", "macallums"),
+    ("altarage", "zinke"),
+    ("altarages", "zinkes"),
+    ("Aa", "BB"),
+    ("AaAa", "BBBB"),
+    ("AaBB", "BBAa"),
+    ("hetairas", "mentioner"),
+    ("heliotropes", "neurospora"),
+    ("depravement", "serafins"),
+    ("plumless", "buckeroo"),
+    ("stylist", "subgenera"),
+];
+
+/// invisible or easily mishandled characters at the ends of a text: zero-width space / joiners,
+/// byte-order mark, bidi controls, word joiner, a combining mark, a variation selector (none of them
+/// is White_Space), and real Unicode white space of several classes
+pub const EDGE_CHARS: [char; 16] = ['\u{200b}', '\u{200d}', '\u{feff}', '\u{202a}', '\u{2060}', '\u{2066}', '\u{0301}', '\u{fe0f}', '\u{a0}', '\u{2003}', '\u{3000}', '\u{85}', '\u{1680}', '\u{b}', '\u{2028}', '\u{1d11e}'];
+
 pub fn pal_text(r: &mut Rng) -> String {
+    if r.chance(1, 20) {
+        let (a, b) = *r.pick(&COLLIDING_TEXTS);
+        return if r.coin() { a.to_string() } else { b.to_string() };
+    }
+    if r.chance(1, 20) {
+        let base = *r.pick(&["a/b", "text/plain", "x", "alg", "k"]);
+        let c = *r.pick(&EDGE_CHARS);
+        return match r.below(3) {
+            0 => format!("{}{}", c, base),
+            1 => format!("{}{}", base, c),
+            _ => format!("{}{}{}", c, base, c),
+        };
+    }
     match r.below(14) {
         0 => "x".repeat(255),
         1 => "x".repeat(256),
@@ -175,6 +258,18 @@ pub fn valid_content_type_text(r: &mut Rng) -> String {
 }
 
 pub fn pal_label(r: &mut Rng) -> MLabel {
+    if r.chance(1, 16) {
+        // an alias of a small (typed / registered) label under truncation to 8, 16 or 32 bits, either sign
+        let small = r.range(0, 9);
+        let m = 1i64 << *r.pick(&[8u32, 16, 32, 40, 62]);
+        let k = r.range(1, 3);
+        return MLabel::Int(match r.below(4) {
+            0 => small + k * m,
+            1 => small - k * m,
+            2 => -small - k * m,
+            _ => (small + k * m) ^ i64::MIN,
+        });
+    }
     if r.chance(1, 4) {
         MLabel::Text(pal_text(r))
     } else {
@@ -290,6 +385,9 @@ pub struct GenOpts {
     /// produce protected headers *without* retained bytes (as the builders do)
     pub built: bool,
     pub max_depth: u32,
+    /// (struct-literal workloads only) a repeated signer / recipient may be carried without retained
+    /// bytes next to one that has them, as when a caller adds a fresh signer to a decoded message
+    pub mixed: bool,
 }
 
 impl GenOpts {
@@ -298,6 +396,7 @@ impl GenOpts {
             styled_prot: 160,
             built: false,
             max_depth: 2,
+            mixed: false,
         }
     }
     pub fn built() -> GenOpts {
@@ -305,6 +404,7 @@ impl GenOpts {
             styled_prot: 0,
             built: true,
             max_depth: 2,
+            mixed: false,
         }
     }
 }
@@ -317,8 +417,42 @@ pub fn gen_alg(r: &mut Rng) -> MLabel {
     }
 }
 
+/// a text whose UTF-8 bytes are exactly the CBOR encoding of the integer label (where that is valid UTF-8)
+pub fn text_twin(i: i64) -> Option<String> {
+    String::from_utf8(rcbor::det(&Item::int(i))).ok()
+}
+
 fn extras(r: &mut Rng, n: usize, forbidden: &dyn Fn(&MLabel) -> bool, label: &mut dyn FnMut(&mut Rng) -> MLabel) -> Vec<(MLabel, Item)> {
     let mut out: Vec<(MLabel, Item)> = Vec::new();
+    if n >= 2 && r.chance(1, 12) {
+        // two labels that are distinct but easy to confuse: hash-colliding texts, or an integer and the
+        // text that spells its encoding
+        let pair: Option<(MLabel, MLabel)> = if r.coin() {
+            let (a, b) = *r.pick(&COLLIDING_TEXTS);
+            Some((MLabel::Text(a.into()), MLabel::Text(b.into())))
+        } else {
+            // the integer comes from the map's own label generator, so it is a label the map may carry
+            let mut found = None;
+            for _ in 0..12 {
+                if let MLabel::Int(i) = label(r) {
+                    if let Some(t) = text_twin(i) {
+                        found = Some((MLabel::Int(i), MLabel::Text(t)));
+                        break;
+                    }
+                }
+            }
+            found
+        };
+        if let Some((a, b)) = pair {
+            if !forbidden(&a) && !forbidden(&b) && a != b {
+                out.push((a, random_item(r, 1)));
+                out.push((b, random_item(r, 1)));
+                if r.coin() {
+                    out.reverse();
+                }
+            }
+        }
+    }
     let mut tries = 0;
     while out.len() < n && tries < 50 {
         tries += 1;
@@ -414,6 +548,37 @@ pub fn gen_header(r: &mut Rng, o: &GenOpts, depth: u32) -> MHeader {
         h.crit = (0..n).map(|k| if r.chance(1, 8) { MLabel::Text(format!("c{}", k % 5)) } else { MLabel::Int(regs[k % regs.len()]) }).collect();
     }
     repeat_neighbour(r, &mut h.csigs);
+    // `crit` is meant to list labels that are present in the same map: sometimes it does, including text
+    // labels and registered labels among the extras (only labels that a crit array may carry)
+    if r.chance(1, 10) {
+        let mut present: Vec<MLabel> = Vec::new();
+        if h.alg.is_some() {
+            present.push(MLabel::Int(1));
+        }
+        if h.ct.is_some() {
+            present.push(MLabel::Int(3));
+        }
+        if !h.kid.is_empty() {
+            present.push(MLabel::Int(4));
+        }
+        if !h.iv.is_empty() {
+            present.push(MLabel::Int(5));
+        }
+        if !h.piv.is_empty() {
+            present.push(MLabel::Int(6));
+        }
+        for (l, _) in &h.rest {
+            match l {
+                MLabel::Text(_) => present.push(l.clone()),
+                MLabel::Int(i) if registry::is_registered(Reg::HeaderParameter, *i) => present.push(l.clone()),
+                _ => {}
+            }
+        }
+        if !present.is_empty() {
+            r.shuffle(&mut present);
+            h.crit = present;
+        }
+    }
     h
 }
 
@@ -734,6 +899,53 @@ pub fn gen_kdf(r: &mut Rng, o: &GenOpts) -> MKdf {
     }
 }
 
+/// After `repeat_neighbour`: a repeated element sometimes keeps its content but is carried differently
+/// (other received bytes for the same protected header, or none at all, as a freshly built one would)
+fn restyle_repeats_sig(r: &mut Rng, o: &GenOpts, v: &mut Vec<MSignature>) {
+    for i in 1..v.len() {
+        if v[i] == v[i - 1] && r.coin() {
+            let h = v[i].prot.header.clone();
+            v[i].prot.bytes = if o.built || (o.mixed && r.coin()) { None } else { Some(prot_bytes(r, &h, 255)) };
+            if r.coin() {
+                v[i].sig = small_bytes(r);
+            }
+        }
+    }
+}
+
+fn restyle_repeats_rcp(r: &mut Rng, o: &GenOpts, v: &mut Vec<MRecipient>) {
+    for i in 1..v.len() {
+        if v[i] == v[i - 1] && r.coin() {
+            let h = v[i].prot.header.clone();
+            v[i].prot.bytes = if o.built || (o.mixed && r.coin()) { None } else { Some(prot_bytes(r, &h, 255)) };
+        }
+    }
+}
+
+/// a signer / recipient sometimes repeats parameters of the enclosing layer (same algorithm, same IV,
+/// same key id), in either bucket: layers are independent of each other
+fn echo_outer(r: &mut Rng, o: &GenOpts, outer_prot: &MProt, outer_unprot: &MHeader, prot: &mut MProt, unprot: &mut MHeader) {
+    if !r.chance(1, 10) {
+        return;
+    }
+    let src = if r.coin() { &outer_prot.header } else { outer_unprot };
+    let mut copy = MHeader::default();
+    copy.alg = src.alg.clone();
+    copy.kid = src.kid.clone();
+    copy.iv = src.iv.clone();
+    copy.piv = src.piv.clone();
+    copy.ct = src.ct.clone();
+    if copy.is_empty() {
+        return;
+    }
+    if r.coin() {
+        *unprot = copy;
+    } else {
+        prot.bytes = if o.built { None } else { Some(prot_bytes(r, &copy, o.styled_prot)) };
+        prot.header = copy;
+    }
+}
+
 fn gen_recipient_list(r: &mut Rng, o: &GenOpts, n: usize) -> Vec<MRecipient> {
     let mut v: Vec<MRecipient> = if r.chance(1, 48) {
         let n = wide_n(r).min(66);
@@ -742,6 +954,7 @@ fn gen_recipient_list(r: &mut Rng, o: &GenOpts, n: usize) -> Vec<MRecipient> {
         (0..n).map(|_| gen_recipient(r, o, 1)).collect()
     };
     repeat_neighbour(r, &mut v);
+    restyle_repeats_rcp(r, o, &mut v);
     v
 }
 
@@ -763,12 +976,15 @@ pub fn gen_mval(r: &mut Rng, ty: Ty, o: &GenOpts) -> MVal {
                 (0..n).map(|_| gen_signature(r, o, 1)).collect()
             };
             repeat_neighbour(r, &mut sigs);
-            MVal::Sign(MSign {
-                prot: gen_prot(r, o, 0),
-                unprot: gen_header(r, o, 0),
-                payload: opt_payload(r),
-                sigs,
-            })
+            restyle_repeats_sig(r, o, &mut sigs);
+            let (prot, unprot) = (gen_prot(r, o, 0), gen_header(r, o, 0));
+            if let Some(s0) = sigs.first_mut() {
+                let (mut p, mut u) = (s0.prot.clone(), s0.unprot.clone());
+                echo_outer(r, o, &prot, &unprot, &mut p, &mut u);
+                s0.prot = p;
+                s0.unprot = u;
+            }
+            MVal::Sign(MSign { prot, unprot, payload: opt_payload(r), sigs })
         }
         Ty::Sign1 => MVal::Sign1(MSign1 {
             prot: gen_prot(r, o, 0),
@@ -778,13 +994,15 @@ pub fn gen_mval(r: &mut Rng, ty: Ty, o: &GenOpts) -> MVal {
         }),
         Ty::Mac => {
             let n = 1 + r.below(2);
-            MVal::Mac(MMac {
-                prot: gen_prot(r, o, 0),
-                unprot: gen_header(r, o, 0),
-                payload: opt_payload(r),
-                tag: small_bytes(r),
-                recipients: gen_recipient_list(r, o, n),
-            })
+            let (prot, unprot) = (gen_prot(r, o, 0), gen_header(r, o, 0));
+            let mut recipients = gen_recipient_list(r, o, n);
+            if let Some(r0) = recipients.last_mut() {
+                let (mut p, mut u) = (r0.prot.clone(), r0.unprot.clone());
+                echo_outer(r, o, &prot, &unprot, &mut p, &mut u);
+                r0.prot = p;
+                r0.unprot = u;
+            }
+            MVal::Mac(MMac { prot, unprot, payload: opt_payload(r), tag: small_bytes(r), recipients })
         }
         Ty::Mac0 => MVal::Mac0(MMac0 {
             prot: gen_prot(r, o, 0),
@@ -794,12 +1012,15 @@ pub fn gen_mval(r: &mut Rng, ty: Ty, o: &GenOpts) -> MVal {
         }),
         Ty::Encrypt => {
             let n = 1 + r.below(2);
-            MVal::Encrypt(MEncrypt {
-                prot: gen_prot(r, o, 0),
-                unprot: gen_header(r, o, 0),
-                ct: opt_payload(r),
-                recipients: gen_recipient_list(r, o, n),
-            })
+            let (prot, unprot) = (gen_prot(r, o, 0), gen_header(r, o, 0));
+            let mut recipients = gen_recipient_list(r, o, n);
+            if let Some(r0) = recipients.first_mut() {
+                let (mut p, mut u) = (r0.prot.clone(), r0.unprot.clone());
+                echo_outer(r, o, &prot, &unprot, &mut p, &mut u);
+                r0.prot = p;
+                r0.unprot = u;
+            }
+            MVal::Encrypt(MEncrypt { prot, unprot, ct: opt_payload(r), recipients })
         }
         Ty::Encrypt0 => MVal::Encrypt0(MEncrypt0 {
             prot: gen_prot(r, o, 0),
@@ -928,6 +1149,11 @@ fn bignum_wrap(tag: u64, node: &Item) -> bool {
 }
 
 fn mutate_node(r: &mut Rng, node: &Item, choice: usize) -> Item {
+    if choice >= 97 && !matches!(node, Item::Bytes(_)) {
+        // the node as it is, embedded: a byte string holding its encoding (bare or under tag 24)
+        let b = Item::Bytes(rcbor::det(node));
+        return if r.coin() { Item::Tag(24, Box::new(b)) } else { b };
+    }
     if choice >= 94 {
         // the node as it is, wrapped in a tag
         let tag = *r.pick(&WRAP_TAGS);
@@ -1080,6 +1306,18 @@ pub fn enum_faults(it: &Item) -> Vec<(String, Item)> {
             }
             let v = replace_node(it, t, true, &mut |node| Item::Tag(tag, Box::new(node.clone())));
             out.push((format!("tagwrap#{}:{}", t, tag), v));
+        }
+        // the node unchanged, but "embedded": as a byte string holding its encoding, bare and under tag 24
+        for (name, wrap) in [("embedded-bstr", false), ("embedded-tag24", true)] {
+            let v = replace_node(it, t, true, &mut |node| {
+                let b = Item::Bytes(rcbor::det(node));
+                if wrap {
+                    Item::Tag(24, Box::new(b))
+                } else {
+                    b
+                }
+            });
+            out.push((format!("{}#{}", name, t), v));
         }
         // container-specific
         let mut variants: Vec<Item> = Vec::new();
